@@ -1,0 +1,16 @@
+//go:build verif
+
+package replayfilter
+
+// VerifGate, when set by a verification harness, is called by TestAndSet
+// right before the filter's lock is taken (the caller's timestamp has been
+// evaluated already).  It may block, which lets a harness force a particular
+// interleaving of concurrent callers.  It is nil (a no-op) by default, and
+// this file is only part of builds with the "verif" tag.
+var VerifGate func(point string, buf []byte)
+
+func verifGate(point string, buf []byte) {
+	if g := VerifGate; g != nil {
+		g(point, buf)
+	}
+}
